@@ -41,7 +41,7 @@ theorem primsOK_svGrow (P : Params) (h : Nat) : PrimsOK P h svGrow where
   setConvertedAmount _ _ _ := Step.guarded (fun _ _ hx => hx)
   setPegConverted _ _ _ _ := Step.guarded (fun _ _ hx => hx)
   insertRelation _ _ _ _ _ := Step.guarded (fun s x hx => by split <;> exact hx)
-  insertHolding _ _ := Step.guarded (fun _ _ hx => hx)
+  insertHolding _ _ _ := Step.guarded (fun _ _ hx => hx)
   insertBank _ := Step.guarded (fun _ _ hx => hx)
   updateBank _ _ _ := Step.guarded (fun _ _ hx => hx)
   insertGrade _ _ _ _ _ := Step.guarded (fun _ _ hx => hx)
